@@ -205,7 +205,7 @@ func ownParse(data []byte) (map[string][][]byte, bool) {
 }
 
 func FuzzReadArchive(f *testing.F) {
-	s := kit.Begin(f, "C39", "fuzz-readarchive", "native fuzzing of the archive bytes given to sourcefs.ReadArchive and (as the single row of a source table, with a fuzzed root) to OpenTraceSource; accepted archives must return only regular entries that an independent gzip+tar walk also finds, byte for byte, within the 8 MiB / 96 MiB limits; every file of the resulting tree has an fs.ValidPath key equal to path.Join(root, entry name) and that entry's bytes; cumulative allocation of ReadArchive <= 8 x 96 MiB")
+	s := kit.Begin(f, "C39", "fuzz-readarchive", "native fuzzing of the archive bytes given to sourcefs.ReadArchive and (as the single row of a source table, with a fuzzed root) to OpenTraceSource; accepted archives must return only regular entries that an independent gzip+tar walk also finds, byte for byte, within the 8 MiB / 96 MiB limits; every file of the resulting tree has an fs.ValidPath key equal to path.Join(root, entry name) and that entry's bytes; cumulative allocation of ReadArchive <= 4 x 96 MiB")
 	defer s.End()
 	var valid bytes.Buffer
 	_ = sourcefs.WriteArchive(&valid, map[string][]byte{"a.go": []byte("package a\n"), "b/c.go": []byte("package c\nfunc F() {}\n"), "go.mod": []byte("module m\n")})
@@ -266,7 +266,7 @@ func c39FuzzBody(s *kit.Session, ff kit.Failer, c c39FuzzCase) {
 			return
 		}
 		runtime.ReadMemStats(&m1)
-		if mb := float64(m1.TotalAlloc-m0.TotalAlloc) / (1 << 20); mb > 8*96 {
+		if mb := float64(m1.TotalAlloc-m0.TotalAlloc) / (1 << 20); mb > 4*96 {
 			s.Fail(ff, c, "read-archive-unbounded-allocation", "ReadArchive allocated %.0f MiB on a %d-byte input", mb, len(data))
 			return
 		}
